@@ -3,7 +3,7 @@
 copy of /repo's current tree and runs the property checks against it.  'break' mutants must be reported (naming the
 expected rule), 'keep' mutants (behaviour-preserving rewrites) must stay silent.  Never prints a VIOLATION line: this
 measures the checker, not the property.  usage: selftest.py [--evidence Cnn] [Cnn ...]"""
-import json, os, subprocess, sys, tempfile, shutil, concurrent.futures
+import time, json, os, subprocess, sys, tempfile, shutil, concurrent.futures
 ROOT = os.path.dirname(os.path.dirname(os.path.abspath(__file__)))
 ENV = dict(os.environ, GOFLAGS="-mod=mod", GOPROXY="off", GOSUMDB="off", GOTOOLCHAIN="local", GOWORK="off", CGO_ENABLED="0")
 
@@ -71,8 +71,18 @@ def main():
             if props:
                 jobs.append(("seeded/" + s, os.path.join(sd, s, "patch.diff"), props, {"kind": "break", "props": props, "rule": ""}))
     results = []
-    with concurrent.futures.ThreadPoolExecutor(max_workers=8) as ex:
-        futs = {ex.submit(run_one, n, p, props): (n, m) for n, p, props, m in jobs}
+    # as part of a property's thorough tier (--evidence) the run is bounded: break variants and seeded defects first,
+    # behaviour-preserving variants after them, and whatever has not started when the budget is used up is reported as skipped
+    deadline = None
+    if ev_prop:
+        jobs.sort(key=lambda j: (j[3]["kind"] != "break", j[0]))
+        deadline = time.time() + float(os.environ.get("VERIF_SELFTEST_BUDGET", "420"))
+    def guarded(n, p, props):
+        if deadline is not None and time.time() > deadline:
+            return n, "skipped (time budget of the thorough tier; ./run.sh selftest runs everything)", {}
+        return run_one(n, p, props)
+    with concurrent.futures.ThreadPoolExecutor(max_workers=12) as ex:
+        futs = {ex.submit(guarded, n, p, props): (n, m) for n, p, props, m in jobs}
         for f in concurrent.futures.as_completed(futs):
             n, m = futs[f]
             name, status, out = f.result()
